@@ -222,3 +222,243 @@ av1_extract_h!(c12_av1_extract_len3, 3, 34);
 av1_extract_h!(c12_av1_extract_len4, 4, 34);
 //@ prop=C12 tier=thorough cost=600 fns="codec::av1::extract_av1_config,parse_sequence_header,parse_color_config,skip_uvlc,BitReader,ObuIter::next" bound="all byte strings of length 6" unwind=34 stubs="assert_invariant(panic-only)" timeout=3000
 av1_extract_h!(c12_av1_extract_len6, 6, 34);
+
+// ===========================================================================
+// fragmented muxer: every public method from hook-built states, symbolic scalars
+// ===========================================================================
+use muxide::fragmented::verif as fh;
+use muxide::fragmented::{FragmentConfig, FragmentedMuxer};
+
+fn fdata(n: usize) -> Vec<u8> {
+    let mut v = Vec::with_capacity(n);
+    let mut i = 0;
+    while i < n {
+        v.push(7);
+        i += 1;
+    }
+    v
+}
+fn fcfg(timescale: u32, frag_ms: u32) -> FragmentConfig {
+    FragmentConfig { width: kani::any(), height: kani::any(), timescale, fragment_duration_ms: frag_ms, sps: Vec::new(), pps: Vec::new(), vps: None, av1_sequence_header: None, vp9_config: None }
+}
+
+//@ prop=C12 tier=quick cost=60 fns="fragmented::FragmentedMuxer::new,ready_to_flush,current_fragment_duration_ms" bound="2 queued samples, any u64 dts (non-decreasing), any u32 timescale / target (timescale 0 and spans >= 2^64/1000 excluded while listed as known findings)" unwind=6 stubs="assert_invariant(panic-only)"
+#[kani::proof]
+#[kani::unwind(6)]
+#[kani::stub(muxide::invariant_ppt::__assert_invariant_impl, crate::stubs::assert_invariant_stub)]
+pub fn c12_frag_ready_queries() {
+    let dts: [u64; 2] = kani::any();
+    kani::assume(dts[0] <= dts[1]);
+    let ts: u32 = kani::any();
+    if crate::known::KF_C12_FRAG_TIMESCALE_ZERO {
+        kani::assume(ts != 0);
+    }
+    if crate::known::KF_C12_FRAG_SPAN_MS_OVERFLOW {
+        kani::assume(dts[1] - dts[0] <= u64::MAX / 1000);
+    }
+    let samples = [fh::mk_sample(dts[0], dts[0], fdata(1), true), fh::mk_sample(dts[1], dts[1], fdata(1), false)];
+    let m = fh::muxer_with_state::<2>(fcfg(ts, kani::any()), samples, 1, kani::any(), kani::any(), None, Some(dts[1]));
+    let _ = m.ready_to_flush();
+    let _ = m.current_fragment_duration_ms();
+    let e = FragmentedMuxer::new(fcfg(ts, kani::any()));
+    assert!(!e.ready_to_flush() && e.current_fragment_duration_ms() == 0);
+    kani::cover!(ts == 1, "timescale 1");
+    core::mem::forget((m, e));
+}
+//@ prop=C12 tier=quick cost=30 fns="fragmented::FragmentedMuxer::ready_to_flush" bound="2 queued samples, timescale 0" unwind=6 expect=fail kf=KF-C12-frag-timescale-zero
+#[kani::proof]
+#[kani::unwind(6)]
+pub fn c12_w_frag_timescale_zero() {
+    let samples = [fh::mk_sample(0, 0, fdata(1), true), fh::mk_sample(1, 1, fdata(1), false)];
+    let m = fh::muxer_with_state::<2>(fcfg(0, 1), samples, 1, 1, 0, None, Some(1));
+    let _ = m.ready_to_flush();
+    core::mem::forget(m);
+}
+//@ prop=C12 tier=quick cost=30 fns="fragmented::FragmentedMuxer::current_fragment_duration_ms" bound="2 queued samples, span > u64::MAX/1000" unwind=6 expect=fail kf=KF-C12-frag-span-ms-overflow
+#[kani::proof]
+#[kani::unwind(6)]
+pub fn c12_w_frag_span_ms_overflow() {
+    let d: u64 = kani::any();
+    kani::assume(d > u64::MAX / 1000);
+    let samples = [fh::mk_sample(0, 0, fdata(1), true), fh::mk_sample(d, d, fdata(1), false)];
+    let m = fh::muxer_with_state::<2>(fcfg(90000, 1), samples, 1, 1, 0, None, Some(d));
+    let _ = m.current_fragment_duration_ms();
+    core::mem::forget(m);
+}
+
+//@ prop=C12 tier=quick cost=200 fns="fragmented::FragmentedMuxer::flush_segment,build_media_segment,build_trun" bound="1 queued sample (1 byte), any u64 pts/dts/seq/base (sequence number u32::MAX, dts > u64::MAX-3000 and ticks >= 2^63 excluded while listed as known findings)" unwind=6 timeout=1200 stubs="assert_invariant(panic-only)"
+#[kani::proof]
+#[kani::unwind(6)]
+#[kani::stub(muxide::invariant_ppt::__assert_invariant_impl, crate::stubs::assert_invariant_stub)]
+pub fn c12_frag_flush_k1() {
+    let (p, d): (u64, u64) = (kani::any(), kani::any());
+    let seq: u32 = kani::any();
+    if crate::known::KF_C12_FRAG_FLUSH_ARITHMETIC_OVERFLOW {
+        kani::assume(seq < u32::MAX && d <= u64::MAX - 3000);
+    }
+    if crate::known::KF_C12_TICKS_ABOVE_I64 {
+        kani::assume(p < (1 << 63) && d < (1 << 63));
+    }
+    let mut m = fh::muxer_with_state::<1>(fcfg(90000, 2000), [fh::mk_sample(p, d, fdata(1), kani::any())], 1, seq, kani::any(), None, Some(d));
+    let r = m.flush_segment();
+    assert!(r.is_some());
+    kani::cover!(true, "reached");
+    core::mem::forget((m, r));
+}
+//@ prop=C12 tier=quick cost=100 fns="fragmented::FragmentedMuxer::flush_segment" bound="1 queued sample; sequence number u32::MAX or dts near u64::MAX" unwind=6 timeout=1200 expect=fail kf=KF-C12-frag-flush-arithmetic-overflow
+#[kani::proof]
+#[kani::unwind(6)]
+pub fn c12_w_frag_flush_overflow() {
+    let d: u64 = kani::any();
+    let seq: u32 = kani::any();
+    kani::assume(d < (1 << 62));
+    kani::assume(seq == u32::MAX);
+    let mut m = fh::muxer_with_state::<1>(fcfg(90000, 2000), [fh::mk_sample(d, d, fdata(1), true)], 1, seq, 0, None, Some(d));
+    let r = m.flush_segment();
+    core::mem::forget((m, r));
+}
+//@ prop=C12 tier=quick cost=60 fns="fragmented::build_trun,muxer::mp4::SampleTables::from_samples" bound="1 sample, pts >= 2^63" unwind=6 expect=fail kf=KF-C12-ticks-above-i64
+#[kani::proof]
+#[kani::unwind(6)]
+pub fn c12_w_ticks_above_i64() {
+    let p: u64 = kani::any();
+    kani::assume(p >= (1 << 63));
+    let t = mp4h2::tables_from_samples([mp4h2::mk_sample(p, 1, fdata(1), true, None)], Vec::new(), 1, None);
+    core::mem::forget(t);
+}
+use muxide::verif_hooks::mp4::verif as mp4h2;
+
+//@ prop=C12 tier=quick cost=60 fns="fragmented::FragmentedMuxer::write_video,init_segment" bound="empty queue: any write (2-byte data); init_segment on a VP9/H.264 config with any dims" unwind=40 timeout=900 stubs="assert_invariant(panic-only)"
+#[kani::proof]
+#[kani::unwind(40)]
+#[kani::stub(muxide::invariant_ppt::__assert_invariant_impl, crate::stubs::assert_invariant_stub)]
+pub fn c12_frag_write_and_init() {
+    let mut m = FragmentedMuxer::new(fcfg(kani::any(), kani::any()));
+    let r = m.write_video(kani::any(), kani::any(), &[1u8, 2], kani::any());
+    assert!(r.is_ok());
+    let i = m.init_segment();
+    assert!(i.len() > 8);
+    kani::cover!(true, "reached");
+    core::mem::forget((m, r, i));
+}
+
+// ===========================================================================
+// progressive kernels behind finalize
+// ===========================================================================
+//@ prop=C12 tier=quick cost=30 fns="muxer::mp4::build_stsz_box" bound="2 sample sizes, all u32 (zero sizes excluded while INV-004 is listed)" unwind=6 stubs="assert_invariant(panic-only),fmt::format"
+#[kani::proof]
+#[kani::unwind(6)]
+#[kani::stub(muxide::invariant_ppt::__assert_invariant_impl, crate::stubs::assert_invariant_stub)]
+#[kani::stub(alloc::fmt::format, crate::stubs::format_stub)]
+pub fn c12_stsz_sizes() {
+    let s: [u32; 2] = kani::any();
+    if crate::known::KF_C12_STSZ_ZERO_SIZE_SAMPLE {
+        kani::assume(s[0] > 0 && s[1] > 0);
+    }
+    let b = mp4h2::build_stsz_box(&s);
+    assert!(b.len() == 28);
+    kani::cover!(true, "reached");
+}
+//@ prop=C12 tier=quick cost=30 fns="muxer::mp4::build_stsz_box" bound="one zero-size sample" unwind=6 stubs="assert_invariant(panic-only),fmt::format" expect=fail kf=KF-C12-stsz-zero-size-sample
+#[kani::proof]
+#[kani::unwind(6)]
+#[kani::stub(muxide::invariant_ppt::__assert_invariant_impl, crate::stubs::assert_invariant_stub)]
+#[kani::stub(alloc::fmt::format, crate::stubs::format_stub)]
+pub fn c12_w_stsz_zero_size() {
+    let b = mp4h2::build_stsz_box(&[5u32, 0]);
+    core::mem::forget(b);
+}
+//@ prop=C12 tier=quick cost=60 fns="Mp4Writer::write_audio_sample,adts_to_raw" bound="AAC writer; ADTS frame whose declared length equals its header length is ACCEPTED with an empty payload (leads to INV-004 at finalize)" unwind=14 stubs="assert_invariant(panic-only),fmt::format,String::push" expect=fail kf=KF-C12-stsz-zero-size-sample
+#[kani::proof]
+#[kani::unwind(14)]
+#[kani::stub(muxide::invariant_ppt::__assert_invariant_impl, crate::stubs::assert_invariant_stub)]
+#[kani::stub(alloc::fmt::format, crate::stubs::format_stub)]
+#[kani::stub(alloc::string::String::push_str, crate::stubs::string_push_str_stub)]
+#[kani::stub(alloc::string::String::push, crate::stubs::string_push_stub)]
+pub fn c12_w_adts_empty_payload_accepted() {
+    use muxide::api::{AacProfile, AudioCodec, VideoCodec};
+    use muxide::verif_hooks::mp4::{Mp4AudioTrack, Mp4Writer};
+    struct Null;
+    impl std::io::Write for Null {
+        fn write(&mut self, b: &[u8]) -> std::io::Result<usize> { Ok(b.len()) }
+        fn flush(&mut self) -> std::io::Result<()> { Ok(()) }
+    }
+    let mut w = Mp4Writer::new(Null, VideoCodec::Vp9);
+    w.enable_audio(Mp4AudioTrack { sample_rate: 44100, channels: 2, codec: AudioCodec::Aac(AacProfile::Lc) });
+    // sync fff, MPEG-4, layer 0, no CRC, LC, 44.1 kHz, stereo, frame length 7 = header only
+    let r = w.write_audio_sample(0, &[0xff, 0xf1, 0x50, 0x80, 0x00, 0xe0, 0x00]);
+    let empty_accepted = r.is_ok() && mp4h2::audio_sample_digest(&w, 0).map(|s| s.len) == Some(0);
+    assert!(!empty_accepted, "an ADTS frame without payload must not be queued as a zero-size sample");
+    core::mem::forget((w, r));
+}
+
+macro_rules! entry_dims_h {
+    ($name:ident, $f:path, $cfg:expr) => {
+        #[kani::proof]
+        #[kani::unwind(40)]
+        #[kani::stub(muxide::invariant_ppt::__assert_invariant_impl, crate::stubs::assert_invariant_stub)]
+        pub fn $name() {
+            let (w, h): (u32, u32) = (kani::any(), kani::any());
+            if crate::known::KF_C12_SAMPLE_ENTRY_DIMS_PANIC {
+                kani::assume(w <= 65535 && h <= 65535);
+            }
+            let cfg = $cfg;
+            let b = $f(&muxide::verif_hooks::mp4::Mp4VideoTrack { width: w, height: h }, &cfg);
+            assert!(b.len() > 86);
+            kani::cover!(w == 65535, "largest width");
+            core::mem::forget(cfg);
+        }
+    };
+}
+//@ prop=C12 tier=quick cost=60 fns="muxer::mp4::build_vp09_box" bound="all u32 dims (dims > 65535 excluded while INV-002 is listed)" unwind=40 stubs="assert_invariant(panic-only)"
+entry_dims_h!(c12_vp09_entry_dims, mp4h2::build_vp09_box, muxide::codec::vp9::Vp9Config { width: 1, height: 1, profile: 0, bit_depth: 8, color_space: 0, transfer_function: 0, matrix_coefficients: 0, level: 0, full_range_flag: 0 });
+//@ prop=C12 tier=quick cost=60 fns="muxer::mp4::build_avc1_box" bound="all u32 dims (dims > 65535 excluded while INV-002 is listed)" unwind=40 stubs="assert_invariant(panic-only)"
+entry_dims_h!(c12_avc1_entry_dims, mp4h2::build_avc1_box, muxide::codec::h264::AvcConfig::new(vec![0x67, 1, 2, 3], vec![0x68, 1]));
+//@ prop=C12 tier=quick cost=30 fns="muxer::mp4::build_vp09_box" bound="width 65536" unwind=40 stubs="assert_invariant(panic-only)" expect=fail kf=KF-C12-sample-entry-dims-panic
+#[kani::proof]
+#[kani::unwind(40)]
+#[kani::stub(muxide::invariant_ppt::__assert_invariant_impl, crate::stubs::assert_invariant_stub)]
+pub fn c12_w_entry_dims_panic() {
+    let cfg = muxide::codec::vp9::Vp9Config { width: 1, height: 1, profile: 0, bit_depth: 8, color_space: 0, transfer_function: 0, matrix_coefficients: 0, level: 0, full_range_flag: 0 };
+    let b = mp4h2::build_vp09_box(&muxide::verif_hooks::mp4::Mp4VideoTrack { width: 65536, height: 16 }, &cfg);
+    core::mem::forget(b);
+}
+
+// calendar loop: bounded iterations only for bounded days
+//@ prop=C12 tier=quick cost=200 fns="muxer::mp4::days_to_ymd" bound="all days < 14610 (40 years): no overflow, terminates within 42 iterations" unwind=43 timeout=900
+#[kani::proof]
+#[kani::unwind(43)]
+pub fn c12_days_to_ymd_bounded() {
+    let d: u64 = kani::any();
+    kani::assume(d < 14610);
+    let (y, m, dd) = mp4h2::days_to_ymd(d);
+    assert!(y >= 1970 && y < 2011 && m >= 1 && m <= 12 && dd >= 1 && dd <= 31);
+    kani::cover!(y == 2009, "last year reached");
+}
+//@ prop=C12 tier=quick cost=60 fns="muxer::mp4::days_to_ymd" bound="all u64 days: the year loop needs days/365 iterations (unwinding assertion at 20 fails)" unwind=20 expect=fail expect_unwind=1 kf=KF-C12-calendar-loop-unbounded
+#[kani::proof]
+#[kani::unwind(20)]
+pub fn c12_w_days_to_ymd_unbounded() {
+    let d: u64 = kani::any();
+    let _ = mp4h2::days_to_ymd(d);
+}
+
+//@ prop=C12 tier=quick cost=120 fns="muxer::mp4::encode_language_code,fragmented::encode_language_code" bound="all strings of 3 bytes that are valid UTF-8 (ASCII and one 2-byte + 1-byte forms), plus the empty string" unwind=8 timeout=900
+#[kani::proof]
+#[kani::unwind(8)]
+pub fn c12_language_any_string() {
+    let b: [u8; 3] = kani::any();
+    // ASCII x3, or a 2-byte sequence followed by ASCII, or ASCII followed by a 2-byte sequence
+    let ascii = b[0] < 0x80 && b[1] < 0x80 && b[2] < 0x80;
+    let two_one = b[0] >= 0xc2 && b[0] <= 0xdf && b[1] >= 0x80 && b[1] <= 0xbf && b[2] < 0x80;
+    let one_two = b[0] < 0x80 && b[1] >= 0xc2 && b[1] <= 0xdf && b[2] >= 0x80 && b[2] <= 0xbf;
+    kani::assume(ascii || two_one || one_two);
+    let s = unsafe { core::str::from_utf8_unchecked(&b) };
+    let a = mp4h2::encode_language_code(s);
+    let f = fh::encode_language_code(s);
+    assert!(a == f, "both copies agree");
+    assert!(a[0] & 0x80 == 0, "pad bit stays clear");
+    let e = mp4h2::encode_language_code("");
+    assert!(e == [0x55, 0xc4], "empty code falls back to 'und'");
+    kani::cover!(two_one, "multi-byte character");
+}
